@@ -209,6 +209,13 @@ def run_c08(ctx):
     ops = ["sort_points", "sort_cells", "strip", "sort", "extend", "merge_split"]
     for _ in range(n2):
         M = G.add_fields(rng, G.gen_mesh(rng), kinds=("scalar", "vector", "int", "tensor"))
+        if rng.random() < 0.5:
+            # integer vector / tensor fields whose entries need all 64 bits (a detour through float64 would change them)
+            iv = lambda: rng.choice([2 ** 53 + 1, -(2 ** 53) - 3, 2 ** 62 + 5, 7, -1])  # noqa: E731
+            M["pf"]["iv"] = [[iv() for _ in range(M["dim"])] for _ in M["pts"]]
+            if rng.random() < 0.5:
+                M["pf"]["it"] = [[[iv() for _ in range(M["dim"])] for _ in range(M["dim"])] for _ in M["pts"]]
+            M["cf"]["civ"] = {t: [[iv() for _ in range(M["dim"])] for _ in rows] for t, rows in M["blocks"]}
         if rng.random() < 0.4:
             G.add_orphans(rng, M)
         if rng.random() < 0.15:
@@ -296,6 +303,7 @@ def run_c08(ctx):
             ctx.violation("E4", "a transformation changed the data set as a geometric object (content before != after)", canon,
                           applied=applied)
         ctx.traces_validated += 1
+    merge_partial_fields_stream(ctx, 150 if q else 4000, merge)
     vals = ctx.coq_eval(HEADER, exprs, name="c08chk")
     for (kind, canon, pmap), v in zip(metas, vals):
         ctx.tie(f"T3 {kind}")
@@ -308,10 +316,8 @@ def run_c08(ctx):
                 "orphan / coincident points, mixed cell types, scalar/vector/tensor/int fields. non-trivial = map is not the identity")
 
 
-def split_and_merge(rng, f, merge):
-    """split the cells of f into two pieces (each with exactly its own points) and merge them again"""
-    from fieldcompare.mesh import Mesh, MeshFields
-    M = G.from_fieldcompare(f)
+def split_pieces(rng, M):
+    """two pieces of the cells of M, each with exactly its own points (None if M cannot be split that way)"""
     ncells = sum(len(rows) for _, rows in M["blocks"])
     if ncells < 2 or G.has_coincident_points(M):
         return None
@@ -345,6 +351,17 @@ def split_and_merge(rng, f, merge):
                 pieces[k]["cf"].setdefault(nm, {})[t] = [per[t][j] for j in sel]
     if not pieces[1]["blocks"] or not (set(local[1]) - set(local[0])):
         return None
+    return pieces, local
+
+
+def split_and_merge(rng, f, merge):
+    """split the cells of f into two pieces (each with exactly its own points) and merge them again"""
+    from fieldcompare.mesh import Mesh, MeshFields
+    M = G.from_fieldcompare(f)
+    sp = split_pieces(rng, M)
+    if sp is None:
+        return None
+    pieces, local = sp
     # orphan points are dropped by this reconstruction; content only covers connected points
     fs = []
     for P in pieces:
@@ -363,6 +380,87 @@ def split_and_merge(rng, f, merge):
     if G.from_fieldcompare(merge(fs[0], fs[1])) != first:
         raise InputModified("merging the same pieces a second time gives a different result")
     return merged
+
+
+def true_zero(proto):
+    if isinstance(proto, list):
+        return [true_zero(x) for x in proto]
+    return 0 if isinstance(proto, int) else Fr(0)
+
+
+def partial_merge_verdict(pieces, dedup, merge):
+    """None if merge(pieces[0], pieces[1]) meets the zero-fill specification, else what is wrong"""
+    try:
+        with quiet():
+            warnings.simplefilter("ignore")
+            fs = [G.to_fieldcompare(P) for P in pieces]
+            merged = G.from_fieldcompare(merge(fs[0], fs[1], remove_duplicate_points=dedup))
+    except Exception as e:  # noqa: BLE001
+        return f"raised {type(e).__name__}: {e}"
+    ptsA = [tuple(p) for p in pieces[0]["pts"]]
+    setA = set(ptsA)
+    newB = [j for j, p in enumerate(pieces[1]["pts"]) if not dedup or tuple(p) not in setA]
+    exp_pts = [list(p) for p in pieces[0]["pts"]] + [pieces[1]["pts"][j] for j in newB]
+    if merged["pts"] != exp_pts:
+        return "points of the merged data set are not (first piece, then the new points of the second)"
+    for nm in sorted(set(pieces[0]["pf"]) | set(pieces[1]["pf"])):
+        proto = (pieces[0]["pf"].get(nm) or pieces[1]["pf"].get(nm))[0]
+        zero = true_zero(proto)
+        a_rows = pieces[0]["pf"][nm] if nm in pieces[0]["pf"] else [zero] * len(ptsA)
+        b_rows = [pieces[1]["pf"][nm][j] for j in newB] if nm in pieces[1]["pf"] else [zero] * len(newB)
+        got = merged["pf"].get(nm)
+        if got is None:
+            return f"point field {nm} is missing in the merged data set"
+        if got != list(a_rows) + list(b_rows):
+            return (f"point field {nm}: merged rows are not (rows on the first piece's points, rows on the new points; "
+                    "zeros where the field is missing)")
+        if isinstance(G.first_scalar(proto), int) != isinstance(G.first_scalar(got[0]), int):
+            return f"point field {nm} changed between integer and floating point"
+    return None
+
+
+def merge_partial_fields_stream(ctx, n, merge):
+    """merge of two pieces whose point-field sets differ: a field missing on one side is filled with zeros of the field's
+    type and shape on that side's points; everything else is carried over exactly (points of the first piece, then the new
+    points of the second one)"""
+    rng = ctx.rng
+    todo = []
+    for f in sorted((lib.VERIF / "corpus" / "C08").glob("found-merge-partial*.json")):
+        c = json.loads(f.read_text())["case"]
+        todo.append(([restore_mesh(x) for x in c["pieces"]], c["remove_duplicate_points"], "corpus"))
+    for _ in range(n):
+        M = G.add_fields(rng, G.gen_mesh(rng), kinds=("scalar", "vector", "int", "tensor"))
+        M["pf"]["q"] = [Fr(rng.randint(1, 500), 4) for _ in M["pts"]]
+        M["pf"]["k"] = [rng.randint(1, 90) for _ in M["pts"]]
+        sp = split_pieces(rng, M)
+        if sp is None:
+            continue
+        pieces, local = sp
+        names = sorted(M["pf"])
+        drop = {0: set(), 1: set()}
+        for nm in names:
+            r = rng.random()
+            if r < 0.3:
+                drop[0].add(nm)
+            elif r < 0.6:
+                drop[1].add(nm)
+        if not drop[0] and not drop[1]:
+            drop[rng.randrange(2)].add(rng.choice(names))
+        for k in range(2):
+            for nm in drop[k]:
+                pieces[k]["pf"].pop(nm)
+        todo.append((pieces, rng.random() < 0.75, "generated"))
+    for pieces, dedup, origin in todo:
+        canon = {"pieces": [json_mesh(P) for P in pieces], "remove_duplicate_points": dedup}
+        only1 = sorted(set(pieces[0]["pf"]) - set(pieces[1]["pf"]))
+        only2 = sorted(set(pieces[1]["pf"]) - set(pieces[0]["pf"]))
+        bad = partial_merge_verdict(pieces, dedup, merge)
+        ctx.case(canon, True, sample={"only in first": only1, "only in second": only2, "dedup": dedup, "origin": origin})
+        ctx.count(f"c08 merge, differing field sets:{'dedup' if dedup else 'keep duplicates'}:{origin}")
+        ctx.tie("T2 merge with differing point-field sets = zero-fill specification")
+        if bad:
+            ctx.violation("E4", "merge of pieces with different point-field sets: " + bad, canon, only_in_first=only1, only_in_second=only2)
+        ctx.traces_validated += 1
 
 
 class InputModified(Exception):
@@ -813,12 +911,98 @@ def run_c03(ctx):
             elif desc[0] in ("move", "rewire", "remove_cell", "duplicate_cell", "drop_block") and direct and not reorder:
                 ctx.violation("E4", f"Mesh.equals answers 'equal' although the meshes differ ({desc[0]})", canon)
             ctx.traces_validated += 1
+    reused_reference_stream(ctx, 60 if q else 1500)
+    compat_twins_stream(ctx, 60 if q else 1500)
     run_stage_batch(ctx, stage_batch)
     run_ladder_batch(ctx, ladder_batch)
     ctx.rule = ("meshes as in C02 with exactly one single-site modification on one side (move a point along one axis by 16..1e6 "
                 "tolerances, rewire one corner, remove one cell, drop a whole cell-type block, change one point/cell field entry), "
                 "at EVERY site for small meshes and random sites otherwise, with and without relabeling, in both roles, with the "
                 "disable_* options; modifications that leave the exact content unchanged carry no requirement")
+
+
+def reused_reference_stream(ctx, n):
+    """one reference object (plain, or sorted once with fieldcompare.mesh.sort) serving several comparisons in a row: an equal
+    (relabeled) result first, then results with one modified entry each — every modified result must still fail"""
+    from fieldcompare.mesh import sort
+    rng = ctx.rng
+    for it in range(n):
+        M = G.add_fields(rng, G.gen_mesh(rng, max_cells=5), kinds=("scalar", "vector", "int"))
+        if not M["cf"]:
+            M["cf"]["c"] = {t: [Fr(rng.randint(-1000, 1000), 8) for _ in rows] for t, rows in M["blocks"]}
+        base = G.content(M)
+        presorted = rng.random() < 0.6
+        mods = [(d, N) for d, N in modifications(rng, M, all_sites=False) if d[0] in ("pfield", "cfield", "move") and G.content(N) != base]
+        if not mods:
+            continue
+        canon0 = {"mesh": json_mesh(M), "reference_sorted_once": presorted}
+        try:
+            with quiet():
+                warnings.simplefilter("ignore")
+                ref = G.to_fieldcompare(M)
+                if presorted:
+                    ref = sort(ref)
+                first = compare_impl(G.to_fieldcompare(G.relabel(rng, M)[0]), ref)
+        except Exception as e:  # noqa: BLE001
+            if "duplicate" in str(e):
+                continue
+            ctx.violation("E4", f"comparison against a reused reference raised {type(e).__name__}: {e}", canon0)
+            continue
+        ctx.case(canon0, True, sample={"presorted": presorted, "modifications": [d for d, _ in mods]})
+        ctx.count(f"c03:reused reference:{'sorted once' if presorted else 'plain'}")
+        if not first["bool"]:
+            ctx.violation("E4", "a relabeled copy does not compare equal to the reference object", canon0, impl=first)
+            continue
+        for desc, N in mods:
+            canon = dict(canon0, modification=desc, modified=json_mesh(N))
+            try:
+                with quiet():
+                    warnings.simplefilter("ignore")
+                    res = compare_impl(G.to_fieldcompare(G.relabel(rng, N)[0]), ref)
+            except Exception as e:  # noqa: BLE001
+                ctx.violation("E4", f"comparison against a reused reference raised {type(e).__name__}: {e}", canon)
+                break
+            ctx.tie("T2 reference object reused for several comparisons")
+            if res["bool"]:
+                ctx.violation("E4", f"comparison against a reference object that already served an earlier comparison PASSES although "
+                                    f"the data sets differ ({desc[0]})", canon, impl=res)
+                break
+        ctx.traces_validated += 1
+
+
+def compat_twins_stream(ctx, n):
+    """cell-type sets that can only be paired many-to-one (see compat_twins): the comparison must fail in both roles"""
+    rng = ctx.rng
+    done = 0
+    tries = 0
+    while done < n and tries < 20 * n:
+        tries += 1
+        A = G.gen_mesh(rng, max_cells=4)
+        A["pf"]["p"] = [Fr(rng.randint(-100, 100), 4) for _ in A["pts"]]
+        B = G.copy_mesh(A)
+        if not compat_twins(rng, A, B):
+            continue
+        done += 1
+        role = rng.choice(["twins_are_source", "twins_are_reference"])
+        X, Y = (A, B) if role == "twins_are_source" else (B, A)
+        if rng.random() < 0.5:
+            Y = G.relabel(rng, Y)[0]
+        canon = {"a": json_mesh(X), "b": json_mesh(Y), "kind": "compat_twins", "role": role}
+        try:
+            with quiet():
+                warnings.simplefilter("ignore")
+                res = compare_impl(G.to_fieldcompare(X), G.to_fieldcompare(Y))
+        except Exception as e:  # noqa: BLE001
+            if "duplicate" in str(e):
+                continue
+            ctx.violation("E4", f"comparison raised {type(e).__name__}: {e} instead of failing", canon)
+            continue
+        ctx.case(canon, True, sample={"role": role, "types": [[t for t, _ in X["blocks"]], [t for t, _ in Y["blocks"]]], "impl": res})
+        ctx.count("c03:compat_twins")
+        if res["bool"]:
+            ctx.violation("E4", "comparison PASSES although one side has a cell type (with cells) that the other lacks "
+                                "(cell types can only be paired many-to-one)", canon, impl=res)
+        ctx.traces_validated += 1
 
 
 # ------------------------------------------------------------------------------------------------
@@ -899,6 +1083,27 @@ def structured_variants(rng):
             "ordinates": [[str(x) for x in o] for o in ords], "ordinates2": [[str(x) for x in o] for o in ords2]}, a, b, P1, P2
 
 
+def compat_twins(rng, M, N):
+    """M gets, next to a block of QUAD / PIXEL / HEXAHEDRON / VOXEL cells, a block of the compatible type holding the same
+    cells; N keeps the single block and gets a block of some other type instead (equally many cell types on both sides,
+    every type of M has an identical or compatible partner in N, but the pairing cannot be one-to-one)"""
+    cands = [b for b in M["blocks"] if b[0] in G.COMPAT and G.COMPAT[b[0]] not in {t for t, _ in M["blocks"]}]
+    if not cands:
+        return False
+    t, rows = rng.choice(cands)
+    perm = [0, 1, 3, 2] if len(rows[0]) == 4 else [0, 1, 3, 2, 4, 5, 7, 6]
+    have = {x for x, _ in M["blocks"]} | {G.COMPAT[t]}
+    other = [x for x in ("TRIANGLE", "LINE", "VERTEX") if x not in have]
+    k = {"TRIANGLE": 3, "LINE": 2, "VERTEX": 1}
+    other = [x for x in other if k[x] <= len(M["pts"])]
+    if not other:
+        return False
+    o = rng.choice(other)
+    M["blocks"].append([G.COMPAT[t], [[r[i] for i in perm] for r in rows]])
+    N["blocks"].append([o, [rng.sample(range(len(N["pts"])), k[o])]])
+    return True
+
+
 def run_c16(ctx):
     from fieldcompare.mesh import Mesh
     try:
@@ -914,9 +1119,13 @@ def run_c16(ctx):
     for it in range(n):
         M = G.gen_mesh(rng, max_cells=5)
         N = G.copy_mesh(M)
-        kind = rng.choice(["same", "noise", "move", "rewire", "remove_cell", "drop_block", "add_block", "swap_compat", "extra_point"])
+        kind = rng.choice(["same", "noise", "move", "rewire", "remove_cell", "drop_block", "add_block", "swap_compat", "extra_point",
+                           "compat_twins"])
         tol = G.dyadic_tol(M)
-        if kind == "noise":
+        if kind == "compat_twins":
+            if not compat_twins(rng, M, N):
+                kind = "same"
+        elif kind == "noise":
             G.add_noise(rng, N, tol / 4096)
         elif kind == "move":
             i, d = rng.randrange(len(N["pts"])), rng.randrange(N["dim"])
@@ -1194,6 +1403,10 @@ def replay(pid, rec):
             res = compare_impl(G.to_fieldcompare(A), G.to_fieldcompare(B), **c["opts"])
             print(res)
             return not res["bool"]
+        if pid == "C03" and c.get("kind") == "compat_twins":
+            res = compare_impl(G.to_fieldcompare(M(c["a"])), G.to_fieldcompare(M(c["b"])))
+            print(res)
+            return not res["bool"]
         if pid == "C16" and "a" in c:
             a, b = G.to_fieldcompare(M(c["a"])).domain, G.to_fieldcompare(M(c["b"])).domain
             try:
@@ -1222,6 +1435,11 @@ def replay(pid, rec):
             diff = float(np.max(np.abs(a.points - b.points)))
             print("equals:", r, "max point difference:", diff, "abs tol:", a.absolute_tolerance)
             return not (r and diff > 4 * max(a.absolute_tolerance, b.absolute_tolerance, 1e-8 * float(np.max(np.abs(a.points)))))
+        if pid == "C08" and "pieces" in c:
+            from fieldcompare.mesh import merge
+            bad = partial_merge_verdict([M(x) for x in c["pieces"]], c["remove_duplicate_points"], merge)
+            print("merge of the two pieces:", bad or "meets the zero-fill specification")
+            return bad is None
         if pid == "C17" and "low" in c:
             A, B = (M(c["low"]), M(c["padded"])) if c["role"] == "low_is_source" else (M(c["padded"]), M(c["low"]))
             res = compare_impl(G.to_fieldcompare(A), G.to_fieldcompare(B), disable_space_dimension_matching=c["disable_space_dimension_matching"])
